@@ -31,7 +31,9 @@ Items(depth) == {it \in [e : Exprs(depth), m : Modes, pos : Positions] : WellFor
 
 \* ------------------------------------------------------------------------------------------------ resources
 Kinds == {"collection", "simple", "actionsSet", "subCollection", "subSimple"}
-KeyTypes == {"int32", "int64", "string", "typeref", "enum", "custom", "complex", "bool", "bytes", "fixed", "float64"}
+\* Rest.li admits as collection keys: string, boolean, integer, long, an enum, a typeref / custom type over those, and
+\* complex (record) keys.  bytes, fixed and floating-point keys are not part of the protocol (and are not enumerated).
+KeyTypes == {"int32", "int64", "string", "bool", "typeref", "enum", "custom", "complex"}
 Rest == {"get", "create", "delete", "update", "partial_update", "batch_get", "batch_create", "batch_delete",
          "batch_update", "batch_partial_update", "get_all"}
 Extra == {"finder", "finder_paged", "finder_meta", "action", "action_entity", "action_void",
